@@ -290,7 +290,7 @@ func (x *g) genLoad() {
 
 func (x *g) topStmt() {
 	// At top level without TopLevelControl only simple statements and defs are legal.
-	choices := []string{"def", "def", "assign", "assign", "call", "call", "expr", "multi", "mutate", "factory"}
+	choices := []string{"def", "def", "assign", "assign", "call", "call", "expr", "multi", "mutate", "factory", "shadow", "loopclosures"}
 	if x.opts.TopLevelControl {
 		choices = append(choices, "if", "for", "for")
 		if x.opts.While {
@@ -308,7 +308,7 @@ func (x *g) topStmt() {
 
 func (x *g) bodyStmt() {
 	choices := []string{"assign", "assign", "assign", "aug", "aug", "call", "expr", "multi", "mutate", "mutate",
-		"if", "if", "for", "for", "def", "lambda", "earlyret", "pass", "factory", "call"}
+		"if", "if", "for", "for", "def", "lambda", "earlyret", "pass", "factory", "call", "shadow", "loopclosures"}
 	if x.opts.While {
 		choices = append(choices, "while")
 	}
@@ -535,7 +535,69 @@ func (x *g) stmtOf(what string) {
 		x.def()
 	case "factory":
 		x.factory()
+	case "shadow":
+		x.shadow()
+	case "loopclosures":
+		x.loopClosures()
 	}
+}
+
+// universal names the generator never uses as functions elsewhere
+var shadowable = []string{"abs", "any", "all", "hash", "repr", "zip", "enumerate", "getattr", "hasattr", "dir", "type", "chr", "ord", "float"}
+
+// shadow binds a universal name as a global or local. By the spec every reference to the name in that
+// block then denotes the new variable, even before the binding statement (a dynamic error there).
+func (x *g) shadow() {
+	if x.depth > 0 && x.sc.file {
+		x.line("pass") // keep top-level bindings unconditional so that later uses are mostly defined
+		return
+	}
+	name := shadowable[x.intn(len(shadowable), "shadowname")]
+	for s := x.sc; s != nil; s = s.parent {
+		for _, v := range s.vars {
+			if v.name == name {
+				x.line("t(%s, %s)", x.tag(), name)
+				return
+			}
+		}
+	}
+	x.f("shadow-universal")
+	if x.risky("use-before-shadow") {
+		x.f("risky-use-before-assignment")
+		x.line("t(%s, %s)", x.tag(), name)
+	}
+	k := []kind{KInt, KList, KStr}[x.intn(3, "shadowkind")]
+	x.line("%s = %s", name, x.expr(k, 1))
+	x.declare(name, k, nil)
+	x.line("t(%s, %s)", x.tag(), name)
+}
+
+// loopClosures builds closures in a loop and calls them after the loop: they all see the final value of the loop variable.
+func (x *g) loopClosures() {
+	if x.sc.file && !x.opts.TopLevelControl {
+		x.line("pass")
+		return
+	}
+	x.f("loop-closures")
+	x.f("nested-def")
+	fs, i, r := x.fresh("fs"), x.fresh("i"), x.fresh("v")
+	x.line("%s = []", fs)
+	x.line("for %s in range(%d):", i, 1+x.intn(3, "lcn"))
+	x.indent++
+	switch x.intn(3, "lcform") {
+	case 0:
+		x.line("%s.append(lambda: %s)", fs, i)
+	case 1:
+		g := x.fresh("g")
+		x.line("def %s(d_ = %s):", g, i)
+		x.line("    return (%s, d_)", i)
+		x.line("%s.append(%s)", fs, g)
+	case 2:
+		x.line("%s.append(lambda q_ = %s: q_ + %s)", fs, i, i)
+	}
+	x.indent--
+	x.line("%s = t(%s, [f_() for f_ in %s])", r, x.tag(), fs)
+	x.declare(i, KInt, nil)
 }
 
 // factory emits a function that returns a closure over a mutable cell and a
@@ -653,7 +715,7 @@ func (x *g) aug() {
 	case 2: // l[i] op= e
 		if ls := x.visible(KList); len(ls) > 0 {
 			l := ls[x.intn(len(ls), "l")]
-			x.line("%s[%s] += %s", l.name, x.indexFor(l.name), x.expr(KInt, 1))
+			x.line("%s[t(%s, %s)] += %s", l.name, x.tag(), x.indexFor(l.name), x.expr(KInt, 1))
 			x.f("aug-index")
 			return
 		}
@@ -671,7 +733,7 @@ func (x *g) aug() {
 	case 4: // r.f op= e
 		if rs := x.visible(KRec); len(rs) > 0 {
 			r := rs[x.intn(len(rs), "r")]
-			x.line("%s.a += %s", r.name, x.expr(KInt, 1))
+			x.line("t(%s, %s).a += %s", x.tag(), r.name, x.expr(KInt, 1))
 			x.f("aug-field")
 			return
 		}
